@@ -368,3 +368,95 @@ Proof. exists (mk_shape [] 0 2 0 0), []. split; [cbn; lia|reflexivity]. Qed.
 Lemma rib_before_f977178_refuted : exists sh p,
   sh_points sh <> length p /\ run_guards rib_guards_before_f977178 sh p = (OEarlyOk, p).
 Proof. exists (mk_shape [WPos; WPos; WPos] 0 0 0 0), [7; 7; 7]%N. split; [cbn; lia|reflexivity]. Qed.
+
+(* ------------------------------------------------------------ the property on an observation
+   [C20_holds]: the property text, clause by clause, as a Prop on the input
+   shape and on what was observed.  [check_C20] decides it; in particular a
+   rejection ([check_C20 = false]) means the property fails on that call. *)
+Definition C20_holds (alg : N) (sh : input_shape) (p0 : list N) (obs : observed) (after : list N) : Prop :=
+  violation alg sh p0 = true ->
+  after = p0 /\
+  exists code a b, obs = ObsErr code a b /\
+    ( (code = 1%N /\ mismatched alg sh p0 = true)
+      \/ (code = 3%N /\ too_many_parts alg p0 = true)
+      \/ (code = 2%N /\ negative_weight alg sh = true)
+      \/ (code = 4%N /\ order_too_high alg sh = true /\ spec_max_order alg = Some a /\ b = sh_order sh) ).
+
+Lemma err_justified_spec alg sh p0 code a b :
+  err_justified alg sh p0 code a b = true <->
+  ( (code = 1%N /\ mismatched alg sh p0 = true)
+    \/ (code = 3%N /\ too_many_parts alg p0 = true)
+    \/ (code = 2%N /\ negative_weight alg sh = true)
+    \/ (code = 4%N /\ order_too_high alg sh = true /\ spec_max_order alg = Some a /\ b = sh_order sh) ).
+Proof.
+  unfold err_justified. rewrite !orb_true_iff, !andb_true_iff.
+  split.
+  - intros [[[[Hc H]|[Hc H]]|[Hc H]]|[[[Hc Ho] Hm] Hb]]; apply N.eqb_eq in Hc.
+    + left. auto.
+    + right. left. auto.
+    + right. right. left. auto.
+    + right. right. right.
+      destruct (spec_max_order alg) as [mx|]; [|discriminate].
+      apply N.eqb_eq in Hm. apply N.eqb_eq in Hb. subst. auto.
+  - intros [[Hc H]|[[Hc H]|[[Hc H]|(Hc & Ho & Hm & Hb)]]]; subst code.
+    + left. left. left. auto.
+    + left. left. right. auto.
+    + left. right. auto.
+    + right. rewrite Hm. subst b. rewrite !N.eqb_refl. auto.
+Qed.
+
+Lemma check_C20_iff alg sh p0 obs after :
+  check_C20 alg sh p0 obs after = true <-> C20_holds alg sh p0 obs after.
+Proof.
+  unfold check_C20, C20_holds. destruct (violation alg sh p0).
+  - split.
+    + intros H _. destruct obs as [|code a b| |]; try discriminate.
+      apply check_C20_err_ok in H. destruct H as [Hj Ha].
+      split; [exact Ha|]. exists code, a, b. split; [reflexivity|].
+      apply err_justified_spec. exact Hj.
+    + intros H. destruct (H eq_refl) as (Ha & code & a & b & Ho & Hj). subst obs.
+      apply check_C20_err_ok. split; [apply err_justified_spec; exact Hj|exact Ha].
+  - split; [intros _ H; discriminate|reflexivity].
+Qed.
+
+Lemma check_C20_rejects alg sh p0 obs after :
+  check_C20 alg sh p0 obs after = false -> ~ C20_holds alg sh p0 obs after.
+Proof.
+  intros H Hh. apply check_C20_iff in Hh. congruence.
+Qed.
+
+(* the clauses one at a time (only that clause applies) *)
+Lemma check_C20_mismatch_only alg sh p0 obs after :
+  check_C20 alg sh p0 obs after = true ->
+  mismatched alg sh p0 = true -> too_many_parts alg p0 = false -> negative_weight alg sh = false ->
+  order_too_high alg sh = false ->
+  after = p0 /\ exists a b, obs = ObsErr 1 a b.
+Proof.
+  intros Hc Hm Ht Hn Ho. apply check_C20_iff in Hc.
+  assert (Hv : violation alg sh p0 = true) by (unfold violation; rewrite Hm; reflexivity).
+  destruct (Hc Hv) as (Ha & code & a & b & Hobs & [H|[H|[H|H]]]).
+  - destruct H as [-> _]. split; [exact Ha|]. exists a, b. exact Hobs.
+  - destruct H as [_ H]. congruence.
+  - destruct H as [_ H]. congruence.
+  - destruct H as (_ & H & _). congruence.
+Qed.
+
+(* Ok (or a panic, or a hang) on a call with a length mismatch is always a rejection *)
+Lemma check_C20_rejects_ok_on_mismatch alg sh p0 obs after :
+  mismatched alg sh p0 = true -> (forall code a b, obs <> ObsErr code a b) ->
+  check_C20 alg sh p0 obs after = false.
+Proof.
+  intros Hm Hne. unfold check_C20, violation. rewrite Hm. cbn [orb].
+  destruct obs as [|code a b| |]; try reflexivity. exfalso. apply (Hne code a b). reflexivity.
+Qed.
+
+(* a modified array on any call to which a clause applies is always a rejection *)
+Lemma check_C20_rejects_modified alg sh p0 obs after :
+  violation alg sh p0 = true -> after <> p0 -> check_C20 alg sh p0 obs after = false.
+Proof.
+  intros Hv Hne. unfold check_C20. rewrite Hv.
+  destruct obs as [|code a b| |]; try reflexivity.
+  unfold check_C20_err. destruct (ids_eqb after p0) eqn:He.
+  - apply ids_eqb_eq in He. contradiction.
+  - apply andb_false_r.
+Qed.
